@@ -9,6 +9,7 @@ Model: lean/EupsModel/Model/FsEff.lean through the driver handler "c08".
 Oracle (ii), model-free: after the kill the read-only listing succeeds; every declaration and tag the command
 did not target is there exactly as before and nothing else appeared; every record file the command may touch
 reads as before the command or as after the completed command — never empty, truncated or anything else."""
+import io
 import json
 import os
 import re
@@ -19,23 +20,36 @@ from .common import parallel_map
 
 RULE = ("cases = (database state reached by a random history of 0-9 completed commands, sometimes with one killed "
         "command in it (stale temporary file); one mutating command: declare / declare -t / tag (re)assignment / "
-        "untag with or without version / undeclare, over 2 products x 2 versions x 2 unrelated flavors x 2 tags; "
+        "untag with or without version / undeclare with or without version / forced declare with a table stream (interned table file, 2 contents), over 2 products x 2 versions x 2 unrelated flavors x 2 tags; "
         "every crash point k of that command).  Non-trivial: the command has at least one effect; distinct = "
         "distinct (state, command) digests; evaluations counts crash points")
 TRUSTED = ["a kill is injected between two Python-level effects (audit events open/rename/remove/mkdir/rmdir and the "
            "wrapped write/close of the record writers); every print of a writer is flushed to disk as one chunk",
            "kernel-level torn writes, power loss and fsync ordering are not exhibited",
-           "POSIX rename/unlink/mkdir/rmdir are atomic; a directory listing sees a consistent snapshot"]
+           "POSIX rename/unlink/mkdir/rmdir are atomic; a directory listing sees a consistent snapshot",
+           "the copy of an interned table file (shutil.copy2 inside utils.copyfile) is one effect: no kill is injected between "
+           "its open and the end of the data (the model has the empty intermediate state; the witness for the pinned "
+           "copyfile is the state after its unlink)"]
 ASSUMPTIONS = ["one writable stack, no user tags, the two flavors are unrelated (neither is a fallback of the other)",
                "the user's cache directory is removed before every traced command (cache files are C07's subject); "
-               "the reader's cache directory is removed too, so its listing is rebuilt from the record files"]
+               "the reader's cache directory is removed too, so its listing is rebuilt from the record files",
+               "a temporary file left beside an interned table file is not compared (nothing lists that directory); the "
+               "creation of the directories that hold an interned table file is not modelled"]
+
+MIRRORS = [("python/eups/db/VersionFile.py", "*"), ("python/eups/db/ChainFile.py", "*"), ("python/eups/db/Database.py", "*"),
+           ("python/eups/tags.py", "*"), ("python/eups/Eups.py", "Eups.declare"), ("python/eups/Eups.py", "Eups.undeclare"),
+           ("python/eups/Eups.py", "Eups.assignTag"), ("python/eups/Eups.py", "Eups.unassignTag"),
+           ("python/eups/utils.py", "copyfile")]
 
 PRODUCTS = ["pa", "pb"]
 VERSIONS = ["1", "2"]
 FLAVORS = ["Linux", "DarwinX86"]
 TAGS = ["current", "beta"]
 CORPUS = os.path.join(common.VERIF, "corpus", "C08")
-TMP_RE = re.compile(r"^(.*\.(?:version|chain))\.tmp(\d+)$")
+TMP_RE = re.compile(r"^(.*\.(?:version|chain|table))\.tmp(\d+)$")
+# table files handed over as a stream (`declare -M -`): Eups.declare copies them into ups_db/<flavor>/<p>/<v>/ups/
+TABLES = ["setupOptional(zlib)\n", "setupOptional(zlib)\nenvSet(C08_X, 1)\n"]
+TABLES_ON_DISK = ["".join(l + " " for l in t.splitlines(True)) for t in TABLES]     # print(line, end=' ') in Eups.declare
 
 
 # ---- commands -------------------------------------------------------------------------------------------
@@ -49,6 +63,11 @@ def all_commands():
                     out.append({"op": "declare", "p": p, "v": v, "f": f, "tag": tag, "force": False})
                 out.append({"op": "declare", "p": p, "v": v, "f": f, "tag": None, "force": True})
                 out.append({"op": "undeclare", "p": p, "v": v, "f": f})
+                for tag in (None, 1):
+                    for tab in range(2):
+                        out.append({"op": "declaretab", "p": p, "v": v, "f": f, "tag": tag, "tab": tab})
+        for f in range(2):
+            out.append({"op": "undeclare", "p": p, "v": None, "f": f})      # version omitted
         for t in range(2):
             for f in range(2):
                 for v in (None, 0, 1):
@@ -59,7 +78,7 @@ def all_commands():
 def gen_history(rng):
     n = rng.choice([0, 1, 2, 3, 4, 5, 6, 7, 8, 9])
     cmds = all_commands()
-    decl = [c for c in cmds if c["op"] == "declare"]
+    decl = [c for c in cmds if c["op"] == "declare"] * 3 + [c for c in cmds if c["op"] == "declaretab"]
     hist = []
     for i in range(n):
         c = dict(rng.choice(decl if rng.random() < 0.7 else cmds))
@@ -75,10 +94,14 @@ def _exec(e, stack, cmd):
         v = VERSIONS[cmd["v"]]
         d = os.path.join(stack, f, p, v)
         e.declare(p, v, d, tag=(TAGS[cmd["tag"]] if cmd["tag"] is not None else None))
+    elif cmd["op"] == "declaretab":
+        v = VERSIONS[cmd["v"]]
+        e.declare(p, v, os.path.join(stack, f, p, v), tablefile=io.StringIO(TABLES[cmd["tab"]]),
+                  tag=(TAGS[cmd["tag"]] if cmd["tag"] is not None else None))
     elif cmd["op"] == "untag":
         e.undeclare(p, VERSIONS[cmd["v"]] if cmd["v"] is not None else None, tag=TAGS[cmd["t"]])
     elif cmd["op"] == "undeclare":
-        e.undeclare(p, VERSIONS[cmd["v"]])
+        e.undeclare(p, VERSIONS[cmd["v"]] if cmd["v"] is not None else None)
     else:
         raise ValueError(cmd)
 
@@ -89,8 +112,9 @@ def _child_cmd(stack, userdata, cmd, crash_at, trace):
     shutil.rmtree(os.path.join(userdata, "_caches_"), ignore_errors=True)
     lib_records.patch_stamps()
     tr = lib_fstrace.Tracer(os.path.join(stack, "ups_db"), crash_at)
-    e = common.new_eups(flavor=FLAVORS[cmd["f"]], force=bool(cmd.get("force")))
+    e = common.new_eups(flavor=FLAVORS[cmd["f"]], force=bool(cmd.get("force")) or cmd["op"] == "declaretab")
     tr.install()
+    tr.wrap_copy2(common.eups_mod("utils"))
     err = None
     try:
         _exec(e, stack, cmd)
@@ -134,9 +158,28 @@ def snapshot(stack, stale_ok=True, own_pid=None):
     CF = common.eups_mod("db.ChainFile").ChainFile
     db = os.path.join(stack, "ups_db")
     dirs, files, sem, odd = [], [], {}, []
+    tabs = []
+    for fi, fl in enumerate(FLAVORS):
+        for pi, pn in enumerate(PRODUCTS):
+            for vi, vn in enumerate(VERSIONS):
+                ud = os.path.join(db, fl, pn, vn, "ups")
+                if not os.path.isdir(ud):
+                    continue
+                for fn in sorted(os.listdir(ud)):
+                    full = os.path.join(ud, fn)
+                    key = "T:%s/%s/%s" % (fl, pn, vn)
+                    if fn == pn + ".table":
+                        txt = lib_records.read_text(full)
+                        c = "empty" if txt == "" else {"tab": TABLES_ON_DISK.index(txt)} if txt in TABLES_ON_DISK else "part"
+                        tabs.append([["main", "t", pi, vi, fi], c])
+                        sem[key] = c["tab"] if isinstance(c, dict) else ("EMPTY" if c == "empty" else "GARBLED")
+                    elif TMP_RE.match(fn) and TMP_RE.match(fn).group(1) == pn + ".table":
+                        tabs.append([["tmp", "t", pi, vi, fi], "tmp"])
+                    else:
+                        odd.append("%s/%s/%s/ups/%s" % (fl, pn, vn, fn))
     for pn in os.listdir(db):
         pd = os.path.join(db, pn)
-        if not os.path.isdir(pd):
+        if not os.path.isdir(pd) or pn in FLAVORS:
             continue
         p = _ids(pn, "p")
         if p is None:
@@ -188,7 +231,7 @@ def snapshot(stack, stale_ok=True, own_pid=None):
             except Exception as ex:  # noqa
                 files.append([["main"] + rp, "part"])
                 sem[key] = "GARBLED"
-    return {"dirs": dirs, "files": files, "sem": sem, "odd": odd}
+    return {"dirs": dirs, "files": files, "tabs": tabs, "sem": sem, "odd": odd}
 
 
 # ---- one (state, command) case on the implementation ----------------------------------------------------------
@@ -292,6 +335,14 @@ def canon_event(ev):
 
     def path(s):
         pn, fn = s.split("/", 1)
+        if pn in FLAVORS:                      # <flavor>/<p>/<v>/ups/<p>.table[.tmpN]
+            parts = fn.split("/")
+            if len(parts) == 4 and parts[2] == "ups":
+                m = TMP_RE.match(parts[3])
+                base = m.group(1) if m else parts[3]
+                if base == parts[0] + ".table" and _ids(parts[0], "p") is not None and _ids(parts[1], "v") is not None:
+                    return (["tmp"] if m else ["main"]) + ["t", _ids(parts[0], "p"), _ids(parts[1], "v"), FLAVORS.index(pn)]
+            return ["other", s]
         m = TMP_RE.match(fn)
         base = m.group(1) if m else fn
         p = _ids(pn, "p")
@@ -302,6 +353,8 @@ def canon_event(ev):
         else:
             return ["other", s]
         return (["tmp"] if m else ["main"]) + rp
+    if kind == "mkdir" and ev[1].split("/")[0] in FLAVORS:
+        return None                # os.makedirs of the directories that hold an interned table file: no reader looks at them
     if kind in ("mkdir", "rmdir"):
         return [kind, _ids(ev[1], "p") if _ids(ev[1], "p") is not None else ev[1]]
     if kind == "rename":
@@ -311,6 +364,12 @@ def canon_event(ev):
 
 def canon_model_eff(e):
     return e[:2] if e[0] == "write" else e
+
+
+def canon_tabs(tabs):
+    """Interned table files: the files themselves; a temporary file beside one is seen by no reader and by no command
+    (nothing lists that directory), so its presence is not compared."""
+    return sorted(([p, c] for p, c in (tabs or []) if p[0] == "main"), key=json.dumps)
 
 
 def canon_fs(files, dirs):
@@ -352,6 +411,8 @@ def sem_state(snap):
     """Declarations {(p, v, f): paths} and tag assignments {(t, p, f): v} readable from the record files."""
     D, T, bad = {}, {}, []
     for key, s in snap["sem"].items():
+        if key.startswith("T:"):
+            continue                      # interned table files: table_state()
         pn, fn = key.split("/", 1)
         if not isinstance(s, dict):
             bad.append(key)
@@ -365,11 +426,16 @@ def sem_state(snap):
     return D, T, bad
 
 
+def table_state(snap):
+    """{(flavor, product, version): content number | "EMPTY" | "GARBLED"} of the interned table files."""
+    return {tuple(k[2:].split("/")): v for k, v in snap["sem"].items() if k.startswith("T:")}
+
+
 def targeted(cmd, D0, T0):
     """What the command is allowed to change (from its structured description and the prior state only)."""
     p, f = PRODUCTS[cmd["p"]], FLAVORS[cmd["f"]]
     decls, tags, recs = set(), set(), set()
-    if cmd["op"] == "declare":
+    if cmd["op"] in ("declare", "declaretab"):
         v = VERSIONS[cmd["v"]]
         decls.add((p, v, f))
         recs.add("%s/%s.version" % (p, v))
@@ -383,7 +449,14 @@ def targeted(cmd, D0, T0):
         tags.add((TAGS[cmd["t"]], p, f))
         recs.add("%s/%s.chain" % (p, TAGS[cmd["t"]]))
     else:
-        v = VERSIONS[cmd["v"]]
+        if cmd["v"] is not None:
+            v = VERSIONS[cmd["v"]]
+        else:
+            # version omitted: the command acts on the only version declared for the flavor, and on nothing otherwise
+            vs = sorted(k[1] for k in D0 if k[0] == p and k[2] == f)
+            if len(vs) != 1:
+                return decls, tags, recs
+            v = vs[0]
         decls.add((p, v, f))
         recs.add("%s/%s.version" % (p, v))
         for (t, p_, f_), v_ in T0.items():
@@ -431,13 +504,25 @@ def oracle(cmd, obs, st):
                                for (p, v, f_) in Dk if f_ == f))
         if lst != want:
             yield ("reader_reports_files", None, "listing %r, the record files say %r" % (lst, want))
+    # interned table files: every one the command does not replace is as before; the one it replaces holds its old
+    # or its new content (absent only if it was absent before)
+    X0, Xk, Xf = table_state(init), table_state(st["snap"]), table_state(final)
+    tkey = (FLAVORS[cmd["f"]], PRODUCTS[cmd["p"]], VERSIONS[cmd["v"]]) if cmd["op"] == "declaretab" else None
+    for key in sorted(set(X0) | set(Xk)):
+        if key != tkey and Xk.get(key, "ABSENT") != X0.get(key, "ABSENT"):
+            yield ("frame_table", None, "table file of %s %s %s not targeted, was %r, now %r" % (key[1], key[2], key[0], X0.get(key, "ABSENT"), Xk.get(key, "ABSENT")))
+    if tkey is not None:
+        now, old, new = Xk.get(tkey, "ABSENT"), X0.get(tkey, "ABSENT"), Xf.get(tkey, "ABSENT")
+        if now != old and now != new:
+            yield ("table_old_or_new", None, "interned table file of %s %s %s reads %r; before: %r, after the completed command: %r"
+                   % (tkey[1], tkey[2], tkey[0], now, old, new))
     for key in sorted(recs):
         now, old, new = rec_sem(st["snap"], key), rec_sem(init, key), rec_sem(final, key)
         if now != old and now != new:
             finding = None
             # D11: a tag that is already assigned for this flavor is assigned again (moved or re-asserted): the
             # chain is seen without this flavor's entry between the removal and the final rewrite
-            if cmd["op"] == "declare" and key.endswith(".chain"):
+            if cmd["op"] in ("declare", "declaretab") and key.endswith(".chain"):
                 t = key.split("/")[1][:-6]
                 f = FLAVORS[cmd["f"]]
                 if (t, PRODUCTS[cmd["p"]], f) in T0 and isinstance(old, dict):
@@ -481,7 +566,8 @@ def evaluate(ctx, cases, workers=None):
             g = groups[k + j * nw]
             for ix, o in zip(g["ix"], obs_list):
                 impl[ix] = o
-    reqs = [{"m": "c08", "atomic": True, "fs": model_fs_input(o["init"]), "cmd": c["cmd"], "flavors": [0, 1]}
+    reqs = [{"m": "c08", "atomic": True, "fs": model_fs_input(o["init"]), "tabs": canon_tabs(o["init"].get("tabs")),
+             "cmd": c["cmd"], "flavors": [0, 1]}
             for c, o in zip(cases, impl)]
     answers = ctx.lean.ask_many(reqs)
     for c, o, a in zip(cases, impl, answers):
@@ -497,10 +583,24 @@ def check_case(ctx, case, obs, ans):
         raise common.InfraError("traced command did not return: %s" % obs.get("full"))
     if obs["init"]["odd"]:
         raise common.InfraError("unexpected entries in the database directory: %s" % obs["init"]["odd"])
-    impl_eff = [canon_event(e) for e in obs["events"]]
+    all_eff = [canon_event(e) for e in obs["events"]]
+    impl_eff = [e for e in all_eff if e is not None]
+    # crash point k of the implementation (an index into its events) = crash point kmap[k] of the model (events that
+    # are not modelled - creation of the directories of an interned table file - change nothing a reader sees)
+    kmap, cnt = [], 0
+    for e in all_eff:
+        kmap.append(cnt)
+        cnt += e is not None
+    kmap.append(cnt)
     mo_eff = [canon_model_eff(e) for e in ans["effects"]]
     n = len(impl_eff)
-    ctx.hist("cmd=%s%s" % (cmd["op"], "+tag" if cmd.get("tag") is not None else ("+force" if cmd.get("force") else "")))
+    ctx.hist("cmd=%s%s" % (cmd["op"], "+tag" if cmd.get("tag") is not None else ("+force" if cmd.get("force") else
+                                          "-noversion" if cmd["op"] not in ("declare", "declaretab") and cmd.get("v") is None else "")))
+    if obs["init"].get("tabs"):
+        ctx.hist("state=with-interned-table")
+    if cmd["op"] == "declaretab":
+        old_t = [c for p_, c in obs["init"].get("tabs", []) if p_ == ["main", "t", cmd["p"], cmd["v"], cmd["f"]]]
+        ctx.hist("table=%s" % ("new" if not old_t else "same" if old_t[0] == {"tab": cmd["tab"]} else "replaced"))
     ctx.hist("effects=%s" % ("0" if n == 0 else "1-5" if n <= 5 else "6-15" if n <= 15 else "16+"))
     if obs["err"]:
         ctx.hist("outcome=" + obs["err"])
@@ -520,6 +620,8 @@ def check_case(ctx, case, obs, ans):
         if canon_fs(obs["final"]["files"], obs["final"]["dirs"]) != canon_fs(fin_m["fs"]["files"], fin_m["fs"]["dirs"]):
             ctx.disagree("final_state", inp, canon_fs(obs["final"]["files"], obs["final"]["dirs"]),
                          canon_fs(fin_m["fs"]["files"], fin_m["fs"]["dirs"]))
+        if canon_tabs(obs["final"].get("tabs")) != canon_tabs(fin_m.get("tabs")):
+            ctx.disagree("final_tables", inp, canon_tabs(obs["final"].get("tabs")), canon_tabs(fin_m.get("tabs")))
         if obs["final_listing"] != model_listing(fin_m["listing"]):
             ctx.disagree("final_listing", inp, obs["final_listing"], model_listing(fin_m["listing"]))
     for st in obs["states"]:
@@ -531,16 +633,19 @@ def check_case(ctx, case, obs, ans):
         if st["snap"]["odd"]:
             ctx.disagree("crash_state", {**inp, "k": k}, st["snap"]["odd"], None, note="unexpected directory entries")
         impl_fs = canon_fs(st["snap"]["files"], st["snap"]["dirs"])
+        impl_tabs = canon_tabs(st["snap"].get("tabs"))
         mo = None
-        if k < len(mstates):
-            ms = mstates[k]
+        if k < len(kmap) and kmap[k] < len(mstates):
+            ms = mstates[kmap[k]]
             mo_fs = canon_fs(ms["fs"]["files"], ms["fs"]["dirs"])
-            mo = {"fs": mo_fs, "listing": model_listing(ms["listing"])}
+            mo = {"fs": mo_fs, "tabs": canon_tabs(ms.get("tabs")), "listing": model_listing(ms["listing"])}
             if impl_fs != mo_fs:
                 ctx.disagree("crash_state", {**inp, "k": k}, impl_fs, mo_fs)
+            elif impl_tabs != mo["tabs"]:
+                ctx.disagree("crash_tables", {**inp, "k": k}, impl_tabs, mo["tabs"])
             elif st["listing"] != mo["listing"]:
                 ctx.disagree("crash_listing", {**inp, "k": k}, st["listing"], mo["listing"])
-        impl_out = {"fs": impl_fs, "listing": st["listing"]}
+        impl_out = {"fs": impl_fs, "tabs": impl_tabs, "listing": st["listing"]}
         for clause, finding, note in oracle(cmd, obs, st):
             ctx.fail(clause, {**inp, "k": k}, impl_out, mo, note=note, finding=finding)
             ctx.hist("oracle=" + clause + ("/" + finding if finding else ""))
@@ -625,7 +730,7 @@ def run(ctx):
             ctx.note("exhaustive: all 324 states of the single-product universe x %d commands x every crash point" % len(cmds))
     nstates = ctx.n(24, 120)
     done = 0
-    soft = ctx.t0 + (100 if ctx.tier == "quick" and not ctx.escalated else 1e9)   # keep the quick tier well under 3 minutes
+    soft = ctx.t0 + (70 if ctx.tier == "quick" and not ctx.escalated else 1e9)   # keep the quick tier well under 3 minutes
     while done < nstates and not ctx.out_of_time() and time.time() < soft:
         evaluate(ctx, gen_cases(ctx.rng, 6, ctx.n(8, 24)))
         done += 6
